@@ -2,6 +2,7 @@ EXPECTED_WIRING = [
     "ro.outFilter.InsertCmdBlackList(filter.NoRouteCmds, true)",
     "ro.outFilter.InsertCmdBlackList(cfg.Filter.CmdBlacklist, true)",
     "ro.outFilter.InsertPrefixKeyBlackList([]string{config.CheckpointKey, config.NamespacePrefixKey})",
+    "ro.bisyncNsFilter.InsertPrefixKeyBlackList([]string{checkpoint.BisyncKeyPrefix + \":\"})",
     "ro.outFilter.InsertPrefixKeyBlackList(keyFilter.PrefixKeyBlacklist) [if keyFilter != nil]",
     "ro.outFilter.InsertPrefixKeyWhiteList(keyFilter.PrefixKeyWhitelist) [if keyFilter != nil]",
     "ro.outFilter.InsertSlotWhiteList(slotFilter.KeySlotWhitelist) [if slotFilter != nil]",
@@ -15,14 +16,16 @@ EXPECTED_USES = [
     "bisync.go:parseAofReplayUnits: if ro.outFilter.FilterCmd(sCmd) [in !(strings.EqualFold(sCmd, \"select\")) ; sCmd != \"ping\"]",
     "bisync.go:parseAofReplayUnits: newArgv, reject := ro.outFilter.FilterCmdKey(sCmd, argv)",
     "bisync_rdb.go:rdbReplayBisync: if ro.outFilter.FilterDb(int(e.DB))",
-    "bisync_rdb.go:rdbReplayBisync: if ro.outFilter.FilterKey(string(e.Key)) || ro.outFilter.FilterSlot(string(e.Key)) [in !(ro.outFilter.FilterDb(int(e.DB)))]",
-    "bisync_rdb.go:rdbReplayBisync: if ro.outFilter.FilterKey(string(e.Key)) || ro.outFilter.FilterSlot(string(e.Key)) [in !(ro.outFilter.FilterDb(int(e.DB)))]",
+    "bisync_rdb.go:rdbReplayBisync: if ro.outFilter.FilterKey(string(e.Key)) || ro.outFilter.FilterSlot(string(e.Key)) || isBisyncNamespaceKey(string(e.Key)) [in !(ro.outFilter.FilterDb(int(e.DB)))]",
+    "bisync_rdb.go:rdbReplayBisync: if ro.outFilter.FilterKey(string(e.Key)) || ro.outFilter.FilterSlot(string(e.Key)) || isBisyncNamespaceKey(string(e.Key)) [in !(ro.outFilter.FilterDb(int(e.DB)))]",
     "output.go:parseAofCommand: bypass = ro.outFilter.FilterDb(n) [in strings.EqualFold(sCmd, \"select\") ; sCmd != \"ping\"]",
     "output.go:parseAofCommand: if ro.outFilter.FilterCmd(sCmd) [in !(strings.EqualFold(sCmd, \"select\")) ; sCmd != \"ping\"]",
+    "output.go:parseAofCommand: newArgv, reject = ro.bisyncNsFilter.FilterCmdKey(sCmd, newArgv) [in !reject]",
     "output.go:parseAofCommand: newArgv, reject = ro.outFilter.FilterCmdKey(sCmd, argv)",
     "output.go:rdbReplay: if ro.outFilter.FilterDb(int(e.DB))",
-    "output.go:rdbReplay: if ro.outFilter.FilterKey(util.BytesToString(e.Key)) || ro.outFilter.FilterSlot(util.BytesToString(e.Key)) [in !(ro.outFilter.FilterDb(int(e.DB)))]",
-    "output.go:rdbReplay: if ro.outFilter.FilterKey(util.BytesToString(e.Key)) || ro.outFilter.FilterSlot(util.BytesToString(e.Key)) [in !(ro.outFilter.FilterDb(int(e.DB)))]",
+    "output.go:rdbReplay: if ro.outFilter.FilterKey(util.BytesToString(e.Key)) || ro.outFilter.FilterSlot(util.BytesToString(e.Key)) || ro.bisyncNsFilter.FilterKey(util.BytesToString(e.Key)) [in !(ro.outFilter.FilterDb(int(e.DB)))]",
+    "output.go:rdbReplay: if ro.outFilter.FilterKey(util.BytesToString(e.Key)) || ro.outFilter.FilterSlot(util.BytesToString(e.Key)) || ro.bisyncNsFilter.FilterKey(util.BytesToString(e.Key)) [in !(ro.outFilter.FilterDb(int(e.DB)))]",
+    "output.go:rdbReplay: if ro.outFilter.FilterKey(util.BytesToString(e.Key)) || ro.outFilter.FilterSlot(util.BytesToString(e.Key)) || ro.bisyncNsFilter.FilterKey(util.BytesToString(e.Key)) [in !(ro.outFilter.FilterDb(int(e.DB)))]",
 ]
 
 EXPECTED_HANDOFF = [
@@ -76,7 +79,11 @@ PROP = {
         "GunYu.Props.C10.rdbKeep_iff",
         "GunYu.Props.C10.no_forward_in_listed_db",
         "GunYu.Props.C10.parse_forward_iff",
-        "GunYu.Props.C10.configFix_preserves",
+        "GunYu.Props.C10.unlisted_db_forwards_exactly",
+        "GunYu.Props.C10.plain_forwarded_keys_accepted",
+        "GunYu.Props.C10.bookkeeping_never_forwarded_plain",
+        "GunYu.Props.C10.bisync_keys_in_namespace",
+        "GunYu.Props.C10.snapshot_never_replays_bookkeeping",
         "GunYu.Props.C10.bookkeeping_never_forwarded",
         "GunYu.Props.C10.cmd_blacklist_iff",
         "GunYu.Props.C10.db_iff",
@@ -86,6 +93,7 @@ PROP = {
         "output_filter_uses": EXPECTED_USES,
         "output_filter_handoff": EXPECTED_HANDOFF,
         "config_filter_writes": [],
+        "output_filter_wiring_defs": ["keyFilter := cfg.Filter.KeyFilter", "slotFilter := cfg.Filter.SlotFilter", "dbBlackList := cfg.Filter.DbBlacklist"],
         "keyspec_numkeysExtractor_body": "{ return numkeysStepExtractor(numkeysIdx, firstKeyIdx, 1, fixedKeys...) }",
         "keyspec_partial_projection": ["mset", "del", "unlink"],
         "keyspec_position_rows": EXPECTED_POSITION_ROWS,
